@@ -4,6 +4,7 @@ use crate::drivers::*;
 use crate::engine::*;
 use crate::interp::RustGraph;
 use crate::run::*;
+use crate::settings::SettingsSpec;
 use crate::shape::{bisimilar, Graph, RegGraph};
 use scale_info::PortableRegistry;
 use serde_json::json;
@@ -36,7 +37,17 @@ pub fn reg_kind(reg: &PortableRegistry, id: u32) -> String {
 
 /// The C01 oracle on one (registry, settings) state. `ids`: which ids to check (None = all).
 pub fn check_case(case: &Case, ctx: &mut Ctx, ids: Option<&[u32]>) {
-    let registry = case.reg.registry();
+    let registry = match case.registry() {
+        Ok(r) => r,
+        Err(e) => {
+            ctx.note(format!("de-duplication failed: {} (reported by C04/C10)", truncate(&e, 60)), 1);
+            return;
+        }
+    };
+    if root_collides(&registry, &case.settings.root) {
+        ctx.exclude("root module name occurs as a path segment of the registry (outside the supported settings)");
+        return;
+    }
     let settings = case.settings.build();
     ctx.exec(1);
     let tokens = match generate(&registry, &settings) {
@@ -132,6 +143,14 @@ pub fn check_case(case: &Case, ctx: &mut Ctx, ids: Option<&[u32]>) {
     ctx.outcome(&(crate::settings::squash(&tokens), outcome));
 }
 
+/// WF8: the root module identifier must not occur as a path segment of a user type
+pub fn root_collides(registry: &PortableRegistry, root: &str) -> bool {
+    registry
+        .types
+        .iter()
+        .any(|t| t.ty.path.segments.len() > 1 && t.ty.path.segments.iter().any(|s| s == root))
+}
+
 pub fn truncate(s: &str, n: usize) -> String {
     if s.len() <= n {
         s.to_string()
@@ -162,15 +181,42 @@ pub fn run(tier: &str, seed: u64) -> i32 {
                 if !thorough && s.depth >= 2 && sname != "faithful" {
                     continue;
                 }
-                let case = Case {
-                    reg: RegSrc::Prog(prog.clone()),
-                    settings: spec.clone(),
-                    note: format!("D-arms {pos} settings {sname}"),
-                };
+                let case = Case::new(RegSrc::Prog(prog.clone()), spec.clone(), format!("D-arms {pos} settings {sname}"));
                 check_case(&case, ctx, None);
             }
         }
     });
+    report.add(st);
+    // D-chain: the Polkadot registry (de-duplicated, as every real user does) and every single-id closure
+    let mut chain: Vec<Case> = vec![];
+    for (sname, spec) in &settings {
+        let mut spec = spec.clone();
+        if spec.root == "types" {
+            // Polkadot has modules called `types`
+            spec.root = "runtime_types".into();
+        }
+        let mut c = Case::new(RegSrc::Polkadot { retain: None }, spec.clone(), format!("D-chain full, settings {sname}"));
+        c.dedup = true;
+        chain.push(c);
+        if !thorough {
+            break;
+        }
+    }
+    let n = crate::run::polkadot_registry().types.len() as u32;
+    for id in 0..n {
+        let mut spec = SettingsSpec::faithful();
+        spec.root = "runtime_types".into();
+        let mut c = Case::new(RegSrc::Polkadot { retain: Some(id) }, spec, format!("D-chain retain({id})"));
+        c.dedup = true;
+        chain.push(c);
+    }
+    let st = sweep(
+        "D-chain(polkadot full + 918 single-id closures)",
+        &chain,
+        Duration::from_secs(if thorough { 900 } else { 60 }),
+        |c| json!({"case": c.note, "reg": c.reg.describe()}),
+        |c, ctx| check_case(c, ctx, None),
+    );
     report.add(st);
     report.assumptions = vec![
         "registries are produced by the SPM elaborator, which is compared entry-for-entry with real scale-info on the conformance corpus".into(),
